@@ -1,6 +1,7 @@
 // Implementation side of the correspondence check: reads one case per line on
 // stdin, runs it against the jmespath crate built from /repo's working tree,
 // prints one canonical observation per line.
+mod extra;
 mod wire;
 
 use jmespath::ast::Ast;
@@ -240,6 +241,91 @@ fn run_hist(ts: &mut Toks) -> Option<String> {
     Some(obs.join(" ; "))
 }
 
+#[cfg(feature = "sync")]
+fn assert_send_sync<T: Send + Sync>() {}
+
+// threads <n> <rounds> <expr> <doc> (sync builds only): n threads released together, each compiling
+// through the shared default runtime and searching a shared compiled expression on a shared value.
+#[cfg(feature = "sync")]
+fn run_threads(ts: &mut Toks) -> Option<String> {
+    use std::sync::{Arc, Barrier};
+    assert_send_sync::<Expression<'static>>();
+    assert_send_sync::<Runtime>();
+    assert_send_sync::<Variable>();
+    assert_send_sync::<Rcvar>();
+    assert_send_sync::<JmespathError>();
+    assert_send_sync::<Ast>();
+    let n: usize = ts.next()?.parse().ok()?;
+    let rounds: usize = ts.next()?.parse().ok()?;
+    let text = parse_str(ts.next()?)?;
+    let doc = Rcvar::new(rd_value(ts)?);
+    let barrier = Arc::new(Barrier::new(n));
+    let mut handles = vec![];
+    // deliberately NOT touching DEFAULT_RUNTIME before the threads start: its first use is part of the race
+    let shared: Arc<std::sync::Mutex<Option<Arc<Expression<'static>>>>> = Arc::new(std::sync::Mutex::new(None));
+    for _ in 0..n {
+        let b = barrier.clone();
+        let text = text.clone();
+        let doc = doc.clone();
+        let shared = shared.clone();
+        handles.push(std::thread::spawn(move || {
+            b.wait();
+            let mut seen: Vec<String> = vec![];
+            for _ in 0..rounds {
+                let o = match jmespath::compile(&text) {
+                    Ok(e) => {
+                        let o = search_result(e.search(doc.clone()));
+                        let mut g = shared.lock().unwrap();
+                        if g.is_none() {
+                            *g = Some(Arc::new(e));
+                        }
+                        o
+                    }
+                    Err(e) => pr_err(&e, true),
+                };
+                if !seen.contains(&o) {
+                    seen.push(o);
+                }
+                let se = shared.lock().unwrap().clone();
+                if let Some(e) = se {
+                    let o2 = search_result(e.search(doc.clone()));
+                    if !seen.contains(&o2) {
+                        seen.push(o2);
+                    }
+                }
+            }
+            seen
+        }));
+    }
+    let mut all: Vec<String> = vec![];
+    for h in handles {
+        match h.join() {
+            Ok(seen) => {
+                for o in seen {
+                    if !all.contains(&o) {
+                        all.push(o);
+                    }
+                }
+            }
+            Err(_) => return Some("PANIC in thread".to_string()),
+        }
+    }
+    let seq = match jmespath::compile(&text) {
+        Ok(e) => search_result(e.search(doc.clone())),
+        Err(e) => pr_err(&e, true),
+    };
+    if all.len() == 1 && all[0] == seq {
+        Some(seq)
+    } else {
+        Some(format!("DIVERGED sequential: {} concurrent: {}", seq, all.join(" || ")))
+    }
+}
+
+#[cfg(not(feature = "sync"))]
+fn run_threads(_ts: &mut Toks) -> Option<String> {
+    Some("NOSYNC".to_string())
+}
+
 fn run_case(line: &str) -> Option<String> {
     let mut ts = Toks::new(line);
     let kind = ts.next()?;
@@ -296,7 +382,20 @@ fn run_case(line: &str) -> Option<String> {
                 Err(e) => pr_err(&e, true),
             })
         }
+        "astdebug" => {
+            // what `jp --ast` is specified to print: the library's tree, pretty Debug form, plus a newline
+            let text = parse_str(ts.next()?)?;
+            Some(match jmespath::compile(&text) {
+                Ok(e) => format!("OK {}", print_str(&format!("{:#?}\n", e.as_ast()))),
+                Err(e) => pr_err(&e, true),
+            })
+        }
+        "threads" => run_threads(&mut ts),
         "hist" => run_hist(&mut ts),
+        "json" => extra::run_json(&mut ts),
+        "ser" => extra::run_ser(&mut ts),
+        "de" => extra::run_de(&mut ts),
+        "conv" => extra::run_conv(&mut ts),
         "fn" => {
             // fn <offset> <name> <arg>* : evaluate a registered function on argument values
             let off: usize = ts.next()?.parse().ok()?;
